@@ -301,6 +301,7 @@ class Actor:
         self.vfile = None
         self.ntok = 0
         self.tokhash = 0
+        self.sw_steps = []
         self.nest = None  # same-thread nesting plan of the current op
         self.nest_out = None
         self.runner = None
@@ -399,6 +400,14 @@ class World:
                 self.directed_lines = directed.shared_write_lines(pyc) or None
             except Exception:
                 self.directed_lines = None
+        self.record_lines = None
+        if spec.get("record_shared_writes") and self.mode == "line":
+            # solo profile run: at which of its steps does this actor execute a line
+            # that writes state other instances can see?  (directs a sweep, no verdict)
+            try:
+                self.record_lines = directed.shared_write_lines(pyc) or None
+            except Exception:
+                self.record_lines = None
         self.code_cache = {}
         self.by_thread = {}
         self.foreign_lexer_calls = 0
@@ -597,11 +606,14 @@ class World:
         world = self
         yield_lines = self.mode == "line"
         dlines = self.directed_lines
+        rlines = self.record_lines
         drng = self.sched.rng
 
         def local(frame, event, arg):
             if event == "line":
                 a.line_count += 1
+                if rlines is not None and (frame.f_code, frame.f_lineno) in rlines and len(a.sw_steps) < 400:
+                    a.sw_steps.append(a.steps)
                 if dlines is not None:
                     # pre-empt right before a line that writes shared state, or right after it
                     hit = a.after_shared_write
@@ -1520,6 +1532,7 @@ def execute(pyc, spec, keep_full=True):
         "foreign_lexer_calls": world.foreign_lexer_calls,
         "nested_calls": world.nested_calls,
         "preempted_inside": [a.preempted_inside for a in world.actors],
+        "sw_steps": [a.sw_steps for a in world.actors],
         "actors": [a.results for a in world.actors],
         "schedule": world.sched.segments,
         "steps": world.sched.total_steps,
